@@ -900,3 +900,57 @@ UNITS += [
          assumptions=["a valid cached MscRange satisfies range_init >= limit_min (established by every earlier write of this constructor: shown as a postcondition)", "the range-factor product on a boundary is real FP arithmetic; CELER_ASSERT(msc_range) after caching NOT promoted"],
          note="UrbanMscMinimalStepLimit constructor: max_step == the physics step; limit >= limit_min > 0; every MscRange it caches keeps range_init >= limit_min"),
 ]
+
+
+# ---- PhysicsTrackView leaf members on the real state layout (the stubs used above are these contracts) -----------------
+PHVH = "src/celeritas/phys/PhysicsTrackView.hh"
+PHV_LAYOUT = """
+#include <stdlib.h>
+typedef struct { real_type range_init, range_factor, limit_min; } MscRange;
+typedef struct { real_type interaction_mfp; real_type dedx_range; MscRange msc_range; } PhysicsTrackState;     /* the members these accessors touch */
+typedef struct { PhysicsTrackState* state; size_type size_; } PhysicsStateRef;
+typedef struct { PhysicsStateRef const* states_; size_type track_slot_; } PhysicsTrackViewR;
+size_type g_k; PhysicsTrackState g_old;     /* ghost: a witness slot and its record before the call (frame) */
+static PhysicsTrackState* PHVR_state(PhysicsTrackViewR const* self) { __CPROVER_assert(self->track_slot_ < self->states_->size_, "celer_expect: Collection::operator[] i < size"); return &self->states_->state[self->track_slot_]; }   /* state(): states_.state[track_slot_] */
+#define PHV_OK(v) ((v) != 0 && (v)->states_ != 0 && (v)->states_->size_ >= 1 && (v)->states_->size_ <= 64 && (v)->track_slot_ < (v)->states_->size_ && __CPROVER_rw_ok((v)->states_->state, (v)->states_->size_ * sizeof(PhysicsTrackState)) \\
+    && g_k < (v)->states_->size_ && g_old.interaction_mfp == (v)->states_->state[g_k].interaction_mfp && g_old.dedx_range == (v)->states_->state[g_k].dedx_range && !__CPROVER_isnand(g_old.interaction_mfp) && !__CPROVER_isnand(g_old.dedx_range))
+#define ME (self->states_->state[self->track_slot_])
+#define SAMEV(a, b) ((a) == (b) || (__CPROVER_isnand(a) && __CPROVER_isnand(b)))
+#define OTHER_UNCHANGED ((g_k != self->track_slot_) ==> (self->states_->state[g_k].interaction_mfp == g_old.interaction_mfp && self->states_->state[g_k].dedx_range == g_old.dedx_range))
+"""
+PHV_RULES = [Rule(r"this->state\(\)\.", "PHVR_state(self)->", "*", note="state() returns states_.state[track_slot_]")]
+PHV_OPS = {
+    "interaction_mfp_set": (r"CELER_FUNCTION void PhysicsTrackView::interaction_mfp\(real_type mfp\)", "void PHVR_interaction_mfp_set(PhysicsTrackViewR* self, real_type mfp)", "mfp > 0", "ME.interaction_mfp == mfp && SAMEV(ME.dedx_range, __CPROVER_old(ME.dedx_range))", "real_type x; PHVR_interaction_mfp_set(&v, x);", True),
+    "reset_interaction_mfp": (r"CELER_FUNCTION void PhysicsTrackView::reset_interaction_mfp\(\)", "void PHVR_reset_interaction_mfp(PhysicsTrackViewR* self)", "1", "ME.interaction_mfp == 0", "PHVR_reset_interaction_mfp(&v);", True),
+    "has_interaction_mfp": (r"CELER_FUNCTION bool PhysicsTrackView::has_interaction_mfp\(\) const", "bool PHVR_has_interaction_mfp(PhysicsTrackViewR const* self)", "1", "__CPROVER_return_value == (ME.interaction_mfp > 0)", "PHVR_has_interaction_mfp(&v);", False),
+    "interaction_mfp_get": (r"CELER_FUNCTION real_type PhysicsTrackView::interaction_mfp\(\) const", "real_type PHVR_interaction_mfp(PhysicsTrackViewR const* self)", "ME.interaction_mfp >= 0", "__CPROVER_return_value == ME.interaction_mfp", "PHVR_interaction_mfp(&v);", False),
+    "dedx_range_set": (r"CELER_FUNCTION void PhysicsTrackView::dedx_range\(real_type range\)", "void PHVR_dedx_range_set(PhysicsTrackViewR* self, real_type range)", "range > 0", "ME.dedx_range == range && SAMEV(ME.interaction_mfp, __CPROVER_old(ME.interaction_mfp))", "real_type x; PHVR_dedx_range_set(&v, x);", True),
+    "dedx_range_get": (r"CELER_FUNCTION real_type PhysicsTrackView::dedx_range\(\) const", "real_type PHVR_dedx_range(PhysicsTrackViewR const* self)", "ME.dedx_range > 0", "__CPROVER_return_value == ME.dedx_range", "PHVR_dedx_range(&v);", False),
+}
+
+
+def build_phv(name):
+    def build(ctx):
+        loc, sig, req, ens, call, writes = PHV_OPS[name]
+        pc = ctx.func(PHVH, loc, PHV_RULES, name="PhysicsTrackView::" + name)
+        return (HDR + PHV_LAYOUT + sig + "\n__CPROVER_requires(PHV_OK(self))\n__CPROVER_requires(%s)   /* own CELER_EXPECT / the state invariant its CELER_ENSURE needs */\n" % req
+                + ("__CPROVER_assigns(__CPROVER_object_whole(self->states_->state))\n" if writes else "__CPROVER_assigns()\n")
+                + "__CPROVER_ensures(%s)\n__CPROVER_ensures(OTHER_UNCHANGED)\n" % ens + "{" + pc.body + """}
+void h_phv(void)
+{
+    size_type n, slot, k; __CPROVER_assume(n >= 1 && n <= 64 && k < n);
+    PhysicsTrackState* st = malloc(n * sizeof(PhysicsTrackState)); __CPROVER_assume(st != 0);
+    PhysicsStateRef r = {st, n}; PhysicsTrackViewR v = {&r, slot};
+    g_k = k; g_old = st[k];
+    %s
+    VERIF_CANARY();
+}
+""" % call)
+    return build
+
+
+UNITS += [
+    Unit("c05_phv_" + nm, build_phv(nm), "h_phv", enforce=PHV_OPS[nm][1].split("(")[0].split()[-1], timeout=120, backend=["sat", "cvc5"],
+         must_have=[r"postcondition"] + ([r"celer_expect"] if "EXPECT" in "" else []), checks=LEAF_CHECKS, note="PhysicsTrackView::%s on the real state layout (own EXPECT/ENSURE, the slot's field, every other slot untouched)" % nm)
+    for nm in PHV_OPS
+]
